@@ -119,6 +119,16 @@ def _world(repo, fs, log, fail_build=False, lib_has=None):
         def write(self, s_):
             fs[self.name] = fs.get(self.name, "") + str(s_)
 
+        def read(self):
+            return str(fs.get(self.name, ""))
+
+        def readline(self):
+            text = str(fs.get(self.name, ""))
+            return text.split("\n")[0] + ("\n" if "\n" in text else "")
+
+        def readlines(self):
+            return [ln + "\n" for ln in str(fs.get(self.name, "")).split("\n") if ln]
+
         def close(self):
             return None
     it.overrides["open"] = _PyCall(lambda n, mode="r", *a, **k: _File(n, mode))
@@ -132,6 +142,7 @@ def _world(repo, fs, log, fail_build=False, lib_has=None):
     it.overrides["os.replace"] = _PyCall(replace)
     it.overrides["os.rename"] = _PyCall(replace)
     it.overrides["time.sleep"] = _PyCall(lambda s_: log.append(("sleep", s_)))
+    it.overrides["os.getpid"] = _PyCall(lambda: 4242)
     it.overrides["logger"] = Node("Logger", info=_PyCall(lambda *a: None), debug=_PyCall(lambda *a: None), warning=_PyCall(lambda *a: None), error=_PyCall(lambda *a: None))
     it.overrides["tempfile.mkdtemp"] = _PyCall(lambda *a, **k: log.append(("mkdtemp",)) or "/tmp/private")
     # importlib: a finder over the cache directory finds `<dir>/<module>.so` when the ready marker logic let it be consulted
@@ -188,9 +199,13 @@ def _world(repo, fs, log, fail_build=False, lib_has=None):
     def compile_objects(decl, objs, names, module_name, options, cache_dir, extra, verbose, debug, libraries, visualise=False):
         log.append(("compile", {"decl": decl, "objects": objs, "names": list(names), "module": module_name, "options": options, "cache_dir": str(cache_dir),
                                 "extra": extra, "verbose": verbose, "debug": debug, "libraries": libraries, "visualise": visualise}))
-        if fail_build:
-            raise Raised(fail_build if isinstance(fail_build, str) else "RuntimeError: the C compiler failed")
         d = str(cache_dir)
+        if isinstance(fail_build, str):
+            raise Raised(fail_build)  # code generation fails: nothing was written yet
+        # cffi emits the generated source as <tmpdir>/<module>.c - the very file that serves as the lock - before it calls the C compiler
+        fs[f"{d}/{module_name}.c"] = "/* generated by cffi */\n#include <Python.h>\n"
+        if fail_build:
+            raise Raised("VerificationError: CompileError: the C compiler failed")
         fs[f"{d}/{module_name}.so"] = "binary"
         fs[f"{d}/{module_name}.c.cached"] = "ready"
         return "IMPL"
